@@ -118,44 +118,12 @@ def label_order(fi, objects):
     raise AnalysisError(f"{fi.where}: merged-label assignment not found")
 
 
-def run_merge_order(chk, src, floor=8):
+def run_merge_order(chk, src, floor=7):
     chk.rule("merge-order", "when two bonds are merged by reshape (operator x state), the order of the merged tensor legs equals the order of the "
              "operands of the add_outer that builds the merged labels (tensor index a*dim_b + b <-> label qn_a[a] + qn_b[b])", floor)
-    cases = [(MPO, "Mpo.apply", {"mps": (4, 3), "mpo": (4, 4)}), (MPDM, "MpDm.apply", {"mpo": (4, 4)})]
-    for rel, qual, branches in cases:
-        fi = src.func(rel, qual)
-        loops = [n for n in ast.walk(fi.node) if isinstance(n, ast.For) and isinstance(n.iter, ast.Call) and "zip(" in unparse(n.iter)
-                 and any(isinstance(s, ast.Assign) and isinstance(s.targets[0], ast.Subscript) for s in n.body)]
-        if len(loops) != len(branches):
-            raise AnalysisError(f"{fi.where}: expected {len(branches)} product loops, found {len(loops)}")
-        zargs = None
-        for loop, (bname, ranks) in zip(loops, branches.items()):
-            z = loop.iter
-            while isinstance(z, ast.Call) and unparse(z.func) != "zip":
-                z = z.args[0]
-            objects = [unparse(a) for a in z.args]
-            pair, legs, edges = tensor_merge_orders(fi, loop, ranks)
-            lorder, lnode = label_order(fi, objects)
-            var2obj = dict(zip(pair, objects))
-            merged = [l for l in legs if l[0] == "M"]
-            if len(merged) != 2:
-                raise AnalysisError(f"{fi.where}[{bname}]: expected two merged bonds, found {len(merged)}")
-            for which, m in zip(("left bond", "right bond"), merged):
-                torder = [var2obj[leg[0]] for leg in m[1]]
-                axes_ok = (m[1][0][1] == m[1][1][1] == 0) if which == "left bond" else (m[1][0][1] == ranks[0] - 1 and m[1][1][1] == ranks[1] - 1)
-                ok = torder == lorder and axes_ok
-                chk.ob("merge-order", f"{qual}[{bname}] {which}", ok, fi.where, {"tensor legs": [f"{var2obj[l[0]]}.{l[1]}" for l in m[1]], "labels": lorder},
-                       "same operand order, bond axes", line=loop.lineno,
-                       detail=f"{qual}: the {which} of the product tensor is merged in the order {torder} but its quantum numbers are built as "
-                              f"add_outer({', '.join(lorder)}): labels are attached to the wrong rows of the merged bond")
-            # the contraction itself: operator column (axis 2) with the physical row of the operand (axis 1)
-            ok = len(edges) == 1 and {edges[0][0], edges[0][1]} == {(pair[0], 2), (pair[1], 1)}
-            chk.ob("merge-order", f"{qual}[{bname}] contraction", ok, fi.where, [f"{a[0]}.{a[1]}-{b[0]}.{b[1]}" for a, b in edges], f"{pair[0]}.2-{pair[1]}.1",
-                   line=loop.lineno, detail=f"{qual} must contract the operator's column index (axis 2) with the operand's physical (row) index (axis 1)")
-            phys = [l for l in legs if l[0] != "M"]
-            want = [(pair[0], 1)] if ranks[1] == 3 else [(pair[0], 1), (pair[1], 2)]
-            chk.ob("merge-order", f"{qual}[{bname}] physical legs", phys == want, fi.where, [f"{l[0]}.{l[1]}" for l in phys], [f"{l[0]}.{l[1]}" for l in want],
-                   line=loop.lineno, detail=f"{qual}: the product's open physical legs must be (operator row[, operand column]) in that order")
+    # chain products: abstract run (chain_rules.product_rule)
+    from .chain_rules import product_rule
+    product_rule(chk, src, "merge-order")
     # tree
     ta = src.func(TREE, "TTNO.apply")
     ext = [n for n in ast.walk(ta.node) if isinstance(n, ast.Call) and isinstance(n.func, ast.Attribute) and n.func.attr == "extend"
@@ -375,39 +343,67 @@ def chain_direct_sum_rule(chk, src):
 
 
 def overlap_rule(chk, src):
-    """MatrixProduct.dot: the transfer step joins the running matrix (self bond, other bond) with both site tensors over their left bonds and contracts all physical
-    (and ancilla) indices pairwise; the result has the same axis order (loop invariant)"""
+    """abstract run of MatrixProduct.dot on two symbolic 3-site chains (tensors = lists of leg identities with distinct prime sizes): the result is the closed network
+    <self, other> - bonds of `self` joined along `self`, bonds of `other` along `other`, every physical (and ancilla) index of a site of `self` with the same index of
+    the same site of `other`, nothing conjugated, nothing left open but the two right boundary bonds"""
+    from .. import ntensor as NTm
+    from ..ntensor import NT, Leg
+    from ..syminterp import SymInterp, Sym, Blob
     fi = src.func(MP, "MatrixProduct.dot")
-    loop = [n for n in ast.walk(fi.node) if isinstance(n, ast.For)]
-    if len(loop) != 1:
-        raise AnalysisError(f"{fi.where}: transfer loop not found")
-    tgt = [x.id for x in loop[0].target.elts] if isinstance(loop[0].target, ast.Tuple) else []
-    it = unparse(loop[0].iter).replace(" ", "")
-    if len(tgt) != 2 or it != "zip(self,other)":
-        raise AnalysisError(f"{fi.where}: loop header is not `for a, b in zip(self, other)`")
-    n_self, n_other = tgt
-    for ndim in (3, 4):
-        tr = Tracker({"e0": [("E", "self"), ("E", "other")], n_self: [("S", k) for k in range(ndim)], n_other: [("O", k) for k in range(ndim)]})
+    n = 3
+    for rank in (3, 4):
+        edges = []
+        sb, ob, ph, qh = [1, 2, 3, 1], [1, 5, 7, 1], [11, 13, 17], [19, 23, 29]
 
-        def run(stmts):
-            for st in stmts:
-                if isinstance(st, ast.Assign) and isinstance(st.targets[0], ast.Name):
-                    tr.env[st.targets[0].id] = tr.ev(st.value)
-                elif isinstance(st, ast.If):
-                    t = unparse(st.test).replace(" ", "")
-                    if ".ndim==" in t:
-                        run(st.body if int(t.split("==")[1]) == ndim else st.orelse)
-                elif isinstance(st, (ast.Expr, ast.Assert)):
-                    continue
-        run(loop[0].body)
-        out = tr.env["e0"]
-        edges = {frozenset(e) for e in tr.edges}
-        want_edges = {frozenset([("E", "self"), ("S", 0)]), frozenset([("E", "other"), ("O", 0)])} | {frozenset([("S", k), ("O", k)]) for k in range(1, ndim - 1)}
-        ok = out == [("S", ndim - 1), ("O", ndim - 1)] and edges == want_edges
-        chk.ob("overlap-network", f"MatrixProduct.dot transfer step [rank {ndim}]", ok, fi.where, {"result axes": out, "contractions": sorted(map(sorted, edges))},
-               {"result axes": [("S", ndim - 1), ("O", ndim - 1)], "contractions": sorted(map(sorted, want_edges))}, line=loop[0].lineno,
-               detail="the overlap <self|other> is built by one transfer step per site; joining a bond of `self` with a bond of `other`, skipping a physical index, or returning the matrix "
-                      "transposed (which the next step then contracts with the wrong tensors) gives a number that is not the inner product")
+        def site(tag, i, bonds):
+            legs = [Leg((tag, i, 0), bonds[i]), Leg((tag, i, 1), ph[i])] + ([Leg((tag, i, 2), qh[i])] if rank == 4 else []) + [Leg((tag, i, rank - 1), bonds[i + 1])]
+            return NT(f"{tag}{i}", legs, edges)
+
+        class Ch(Sym):
+            def __init__(self, name, sites):
+                super().__init__(name)
+                self.sites = sites
+
+            def __len__(self):
+                return len(self.sites)
+
+            def __iter__(self):
+                return iter(self.sites)
+
+            def __getitem__(self, k):
+                return self.sites[k]
+        me, other = Ch("self", [site("S", i, sb) for i in range(n)]), Ch("other", [site("O", i, ob) for i in range(n)])
+        eye = lambda a_, b_=None, **k: NT("eye", [Leg(("E", 0), a_), Leg(("E", 1), a_ if b_ is None else b_)], edges)    # noqa: E731
+        npx = NTm.np_namespace(eye=eye, ones=lambda shape, **k: NT("ones", [Leg(("E", q), d) for q, d in enumerate(shape if isinstance(shape, (list, tuple)) else [shape])], edges))
+        it = SymInterp(src, None, {"np": npx, "xp": npx, "tensordot": NTm.tensordot, "moveaxis": NTm.moveaxis, "complex": lambda x: x, "float": lambda x: x, "logger": Blob("logger"),
+                                   "asnumpy": lambda x: x, "asxp": lambda x: x})
+        problems = []
+        try:
+            res = it.call_function(fi, [me, other])
+        except ValueError as e:
+            res = None
+            problems.append(f"ValueError: {e}")
+        got = {frozenset([(a, ca), (b, cb)]) for a, ca, b, cb in edges}
+        want = set()
+        for i in range(n):
+            for ax in range(1, rank - 1):
+                want.add(frozenset([(("S", i, ax), False), (("O", i, ax), False)]))
+            if i + 1 < n:
+                want.add(frozenset([(("S", i, rank - 1), False), (("S", i + 1, 0), False)]))
+                want.add(frozenset([(("O", i, rank - 1), False), (("O", i + 1, 0), False)]))
+        boundary = {frozenset(x for x in e) for e in got if any(k[0][0] == "E" for k in e)}
+        inner = got - boundary
+        if not problems:
+            if inner != want:
+                problems.append(f"contractions missing {sorted(map(sorted, want - inner))[:2]}, unexpected {sorted(map(sorted, inner - want))[:2]}")
+            bl = sorted(sorted(k[0] for k in e) for e in boundary)
+            if bl != [[("E", 0), ("O", 0, 0)], [("E", 1), ("S", 0, 0)]] and bl != [[("E", 0), ("S", 0, 0)], [("E", 1), ("O", 0, 0)]]:
+                problems.append(f"the starting matrix is joined as {bl}; expected one axis with the left boundary of each chain")
+            if isinstance(res, NT) and res.legs:
+                problems.append(f"the result keeps open axes {res.legs}")
+        chk.ob("overlap-network", f"MatrixProduct.dot [rank {rank} sites]", not problems, fi.where, problems[:2] or "closed <self, other> network", "closed <self, other> network", line=fi.node.lineno,
+               detail="the overlap is built by one transfer step per site: " + (problems[0] if problems else "") + " - joining a bond of `self` with a bond of `other`, skipping a physical index, or "
+                      "feeding the transposed matrix into the next step gives a number that is not the inner product")
 
 
 def run(chk):
@@ -431,70 +427,9 @@ def run(chk):
     overlap_rule(chk, src)
     chk.rule("adjoint", "complex conjugate / adjoint act site by site (abstract run)", 3)
     adjoint_rule(chk, src)
-    chk.rule("prefactor", "scalar prefactor kept separately from tensors is folded / conjugated / applied consistently", 8)
-    for nm in ("Mps.add", "Mps.distance"):
-        fi = src.func(MPS, nm)
-        other = fi.params()[1]
-        body_if = [n for n in fi.node.body if isinstance(n, ast.If)]
-        txt = [unparse(s).replace(" ", "") for n in body_if for s in n.body]
-        for x in ("self", other):
-            ok = f"{x}.scale({x}.coeff,inplace=True)" in txt and f"{x}.coeff=1" in txt
-            chk.ob("prefactor", f"{nm}: fold {x}", ok, fi.where, [t for t in txt if t.startswith(x + ".")], f"{x}.scale({x}.coeff, inplace=True) and {x}.coeff = 1",
-                   line=fi.node.lineno, detail=f"{nm} with different prefactors must fold {x}.coeff into {x}'s tensors and reset it; half a fold changes the state {x} represents")
-        guard = any("allclose(self.coeff" in unparse(n.test).replace(" ", "") for n in body_if)
-        chk.ob("prefactor", f"{nm}: fold guarded by prefactor comparison", guard, fi.where, [unparse(n.test) for n in body_if], "if not np.allclose(self.coeff, other.coeff)",
-               line=fi.node.lineno)
-        rets = [unparse(r.value).replace(" ", "") for r in ast.walk(fi.node) if isinstance(r, ast.Return)]
-        chk.ob("prefactor", f"{nm}: delegates to the tensor-level {nm.split('.')[1]}", rets == [f"super().{nm.split('.')[1]}({other})"], fi.where, rets,
-               f"super().{nm.split('.')[1]}({other})", line=fi.node.lineno)
-    cj = src.func(MPS, "Mps.conj")
-    t = [unparse(s).replace(" ", "") for s in cj.node.body]
-    chk.ob("prefactor", "Mps.conj conjugates the prefactor", any(x.endswith(".coeff.conjugate()") or x.endswith("np.conj(new_mps.coeff)") for x in t), cj.where, t,
-           "new.coeff = new.coeff.conjugate()", line=cj.node.lineno, detail="the complex conjugate of c|psi> is conj(c)|psi*>")
-    sc = src.func(MP, "MatrixProduct.scale")
-    stores = [s for s in walk_no_nested(sc.node) if isinstance(s, ast.Assign) and isinstance(s.targets[0], ast.Subscript) and unparse(s.targets[0].value) == "new_mp"]
-    in_loop = any(isinstance(p, (ast.For, ast.While)) for p in ast.walk(sc.node))
-    ok = len(stores) == 1 and not in_loop and unparse(stores[0].value).replace(" ", "") in ("new_mp[self.qnidx]*val", "val*new_mp[self.qnidx]")
-    chk.ob("prefactor", "MatrixProduct.scale multiplies exactly one site tensor", ok, sc.where, [norm_stmt(s) for s in stores], "new_mp[k] = new_mp[k] * val (once)",
-           line=sc.node.lineno, detail="scaling n site tensors scales the state by val**n")
-    ds = src.func(MP, "MatrixProduct.distance")
-    import sympy as sp
-    a, b, x = sp.symbols("l1 l2 x")
-    from ..src import inline_adjacent_temps
-    asg = {unparse(s.targets[0]): s.value for s in ast.walk(inline_adjacent_temps(ds.node)) if isinstance(s, ast.Assign) and isinstance(s.targets[0], ast.Name)}
-    form = unparse(asg.get("dis_square")).replace(" ", "") if "dis_square" in asg else ""
-    calls = {k: unparse(v).replace(" ", "") for k, v in asg.items() if k in ("l1", "l2", "l1dotl2")}
-    other = ds.params()[1]
-    okc = calls == {"l1": "self.conj().dot(self)", "l2": f"{other}.conj().dot({other})", "l1dotl2": f"self.conj().dot({other})"}
-    okf = form in ("(l1+l2-l1dotl2-l1dotl2.conjugate()).real",)
-    if not okf and "dis_square" in asg:
-        # semantic comparison
-        try:
-            e = asg["dis_square"]
-            if isinstance(e, ast.Attribute) and e.attr == "real":
-                e = e.value
-
-            def sv(n):
-                if isinstance(n, ast.Name):
-                    return {"l1": a, "l2": b, "l1dotl2": x}[n.id]
-                if isinstance(n, ast.BinOp):
-                    l, r = sv(n.left), sv(n.right)
-                    return {ast.Add: l + r, ast.Sub: l - r, ast.Mult: l * r}[type(n.op)]
-                if isinstance(n, ast.Call) and isinstance(n.func, ast.Attribute) and n.func.attr in ("conjugate", "conj"):
-                    return sp.conjugate(sv(n.func.value))
-                if isinstance(n, ast.UnaryOp) and isinstance(n.op, ast.USub):
-                    return -sv(n.operand)
-                if isinstance(n, ast.Constant):
-                    return sp.nsimplify(n.value)
-                raise KeyError
-            okf = sp.simplify(sv(e) - (a + b - x - sp.conjugate(x))) == 0
-        except (KeyError, TypeError):
-            raise AnalysisError(f"{ds.where}: distance formula outside the interpreted fragment: {form}")
-    chk.ob("prefactor", "MatrixProduct.distance: inner products", okc, ds.where, calls, "<a|a>, <b|b>, <a|b> with conj() on the bra", line=ds.node.lineno)
-    chk.ob("prefactor", "MatrixProduct.distance: |a-b|^2 = <a|a> + <b|b> - <a|b> - conj(<a|b>)", okf, ds.where, form, "(l1 + l2 - l1dotl2 - conj(l1dotl2)).real", line=ds.node.lineno)
-    sb = src.func(MP, "MatrixProduct.__sub__")
-    r = [unparse(x.value).replace(" ", "") for x in ast.walk(sb.node) if isinstance(x, ast.Return)]
-    chk.ob("prefactor", "MatrixProduct.__sub__ = add(other.scale(-1))", r == [f"self.add({sb.params()[1]}.scale(-1))"], sb.where, r, "self.add(other.scale(-1))", line=sb.node.lineno)
+    chk.rule("prefactor", "scalar prefactor kept separately from tensors is folded / conjugated / applied consistently (abstract runs on algebraic states)", 9)
+    from .chain_rules import prefactor_rule
+    prefactor_rule(chk, src, "prefactor")
 
 
 META = {
